@@ -53,3 +53,40 @@ fn verif_witness_search_parser_terminates() {
   }
   println!("WITNESS-SEARCH: no violating history found ({checked} truncated or malformed texts)");
 }
+
+// Witness search for unit `parsetok` (C14): the range reported for the module name of an import must cover exactly
+// the characters that spell it, also when a comment follows.
+#[test]
+fn verif_witness_search_import_ranges() {
+  let texts = [
+    "import { Foo } from Bar.Baz /* why */;\nclass A {}",
+    "import { Qux } from Quux // note\nclass A {}",
+    "import { Foo } from Bar.Baz;\nclass A {}",
+    "import { Foo } from Bar . /* c */ Baz /** d */\nclass A {}",
+    "/* head */ import { Foo } from Bar /* tail */",
+  ];
+  let mut checked = 0usize;
+  for text in texts {
+    let mut heap = Heap::new();
+    let mut error_set = ErrorSet::new();
+    let m = super::parse_source_module_from_text(text, ModuleReference::DUMMY, &mut heap, &mut error_set);
+    for import in m.imports.iter() {
+      let loc = import.imported_module_loc;
+      checked += 1;
+      let lines: Vec<&str> = text.split('\n').collect();
+      let covered = if loc.start.0 == loc.end.0 && (loc.start.0 as usize) < lines.len() {
+        lines[loc.start.0 as usize].get(loc.start.1 as usize..loc.end.1 as usize).unwrap_or("<outside the line>").to_string()
+      } else {
+        format!("<lines {}..{}>", loc.start.0, loc.end.0)
+      };
+      let spelled = import.imported_module.pretty_print(&heap);
+      let squeezed: String = covered.chars().filter(|c| !c.is_whitespace()).collect();
+      // comments inside the dotted name are part of its extent; a comment AFTER the last part is not
+      if !squeezed.ends_with(spelled.rsplit('.').next().unwrap_or("")) || !squeezed.starts_with(spelled.split('.').next().unwrap_or("")) {
+        println!("WITNESS: in {text:?} the module name {spelled} is reported at {}:{}-{}:{}, which covers {covered:?}", loc.start.0 + 1, loc.start.1 + 1, loc.end.0 + 1, loc.end.1 + 1);
+        return;
+      }
+    }
+  }
+  println!("WITNESS-SEARCH: no violating history found ({checked} import lines)");
+}
